@@ -157,7 +157,21 @@ func runBackoff(t *testing.T, tr *vh.Trace, tid string, beh BBeh, concurrency ui
 			}
 		}
 
-		// long quiet period: every pending retry (<= 90 s) must have fired
+		// let the outcome sequence play out (each retry comes after at most 90 s), then a long quiet period: every pending
+		// retry must have fired
+		for range len(beh.Outcomes)/5 + 1 {
+			mu.Lock()
+			left := len(beh.Outcomes) - next
+			mu.Unlock()
+
+			if left <= 0 {
+				break
+			}
+
+			time.Sleep(10 * time.Minute)
+			synctest.Wait()
+		}
+
 		time.Sleep(10 * time.Minute)
 		synctest.Wait()
 
